@@ -747,6 +747,29 @@ func equalPaths(f *ssa.Function, cmps map[ssa.Value]string, helperCover map[ssa.
 				}
 				continue
 			}
+			// `table[x.F]` on a package-level map[K]bool that is filled once with constants: where the lookup is true, F is one
+			// of the keys mapped to true
+			if lk, isLk := v.(*ssa.Lookup); isLk && t && !lk.CommaOk {
+				if gl, ok := lk.X.(*ssa.UnOp); ok && gl.Op == token.MUL {
+					if g, ok := gl.X.(*ssa.Global); ok {
+						if ld, ok := stripConv(lk.Index).(*ssa.UnOp); ok && ld.Op == token.MUL {
+							if fa, ok := ld.X.(*ssa.FieldAddr); ok {
+								if _, isP := fa.X.(*ssa.Parameter); isP {
+									if keys, ok := constBoolMapKeys(g); ok {
+										var names []string
+										for _, k := range keys {
+											names = append(names, constName(lk.Index.Type(), k))
+										}
+										sortStrings(names)
+										p.disc[fieldName(fa.X.Type(), fa.Field)] = strings.Join(names, "|")
+									}
+								}
+							}
+						}
+					}
+				}
+				continue
+			}
 			if b, isB := v.(*ssa.BinOp); isB && ((b.Op == token.EQL && t) || (b.Op == token.NEQ && !t)) {
 				x, y := b.X, b.Y
 				if _, isC := x.(*ssa.Const); isC {
@@ -876,15 +899,17 @@ func init() {
 							continue
 						}
 						if r, ok := rel[n]; ok {
-							if dv, known := p.disc[r.disc]; known {
+							if dvs, known := p.disc[r.disc]; known {
 								irrelevant := true
-								for _, v := range r.vals {
-									if v == dv {
-										irrelevant = false
+								for _, dv := range strings.Split(dvs, "|") { // a set of possible values: none may make the field relevant
+									for _, v := range r.vals {
+										if v == dv {
+											irrelevant = false
+										}
 									}
-								}
-								if _, err := fmt.Sscanf(dv, "%d", new(int)); err == nil {
-									irrelevant = false // not a named built-in constant
+									if _, err := fmt.Sscanf(dv, "%d", new(int)); err == nil {
+										irrelevant = false // not a named built-in constant
+									}
 								}
 								if irrelevant {
 									continue
@@ -926,4 +951,63 @@ func equalityHelpers(P *Program, f *ssa.Function, frozen []string) []string {
 		}
 	}
 	return out
+}
+
+
+// constBoolMapKeys: g is a package-level map[K]bool that the package initialiser fills with constant keys and that
+// nothing else in its package writes; it returns the keys mapped to true.
+func constBoolMapKeys(g *ssa.Global) ([]int64, bool) {
+	if g.Pkg == nil {
+		return nil, false
+	}
+	ini := g.Pkg.Func("init")
+	if ini == nil {
+		return nil, false
+	}
+	var mk ssa.Value
+	eachInstr(ini, func(ins ssa.Instruction) {
+		if st, ok := ins.(*ssa.Store); ok && st.Addr == ssa.Value(g) {
+			mk = st.Val
+		}
+	})
+	if _, ok := mk.(*ssa.MakeMap); !ok {
+		return nil, false
+	}
+	var keys []int64
+	good := true
+	eachInstr(ini, func(ins ssa.Instruction) {
+		if mu, ok := ins.(*ssa.MapUpdate); ok && mu.Map == mk {
+			k, okK := constInt(mu.Key)
+			v, okV := mu.Value.(*ssa.Const)
+			if !okK || !okV || v.Value == nil || v.Value.Kind() != constant.Bool {
+				good = false
+				return
+			}
+			if constant.BoolVal(v.Value) {
+				keys = append(keys, k)
+			}
+		}
+	})
+	// no other writer
+	for _, m := range g.Pkg.Members {
+		f, ok := m.(*ssa.Function)
+		if !ok {
+			continue
+		}
+		for _, fn := range withAnon(f) {
+			eachInstr(fn, func(ins ssa.Instruction) {
+				switch x := ins.(type) {
+				case *ssa.Store:
+					if x.Addr == ssa.Value(g) && fn != ini {
+						good = false
+					}
+				case *ssa.MapUpdate:
+					if ld, ok := x.Map.(*ssa.UnOp); ok && ld.X == ssa.Value(g) {
+						good = false
+					}
+				}
+			})
+		}
+	}
+	return keys, good
 }
